@@ -20,7 +20,7 @@ macro_rules! flush_before_rename {
         #[kani::proof]
         #[kani::unwind(14)]
         fn $name() {
-            unsafe { fmtm::CONST_ROWS = true; gfs::FAULT_AT = kani::any(); }
+            unsafe { fmtm::CONST_ROWS.v = true; gfs::FAULT_AT.v = kani::any(); }
             let mut cb = mk_dump(4);
             let mut i = 0u8;
             while i < $entries {
@@ -29,19 +29,19 @@ macro_rules! flush_before_rename {
             }
             match cb.on_complete(1) {
                 Ok(()) => unsafe {
-                    assert!(!gfs::WRITE_FAILED, "C10:exit_0_implies_no_write_failed");
-                    assert!(gfs::RENAMES == 1, "C10:exit_0_implies_final_name");
+                    assert!(!gfs::WRITE_FAILED.v, "C10:exit_0_implies_no_write_failed");
+                    assert!(gfs::RENAMES.v == 1, "C10:exit_0_implies_final_name");
                     assert!(cb.writer.buffer().is_empty(), "C10:exit_0_implies_nothing_left_buffered");
-                    assert!(gfs::ACCEPTED[3] == gfs::SNAP_AT_FIRST_RENAME[3], "C10:no_bytes_written_after_the_rename");
-                    assert!(gfs::ACCEPTED[3] == 2 * (1 + $entries), "C07:header_plus_one_row_per_entry");
+                    assert!(gfs::ACCEPTED.v[3] == gfs::SNAP_AT_FIRST_RENAME.v[3], "C10:no_bytes_written_after_the_rename");
+                    assert!(gfs::ACCEPTED.v[3] == 2 * (1 + $entries), "C07:header_plus_one_row_per_entry");
                 },
                 Err(e) => {
                     core::mem::forget(e);
-                    assert!(unsafe { gfs::RENAMES } == 0, "C10:write_failure_leaves_no_final_named_file");
-                    kani::cover!(unsafe { gfs::WRITE_FAILED }, "write failed");
+                    assert!(unsafe { gfs::RENAMES.v } == 0, "C10:write_failure_leaves_no_final_named_file");
+                    kani::cover!(unsafe { gfs::WRITE_FAILED.v }, "write failed");
                 }
             }
-            kani::cover!(unsafe { !gfs::WRITE_FAILED && gfs::WRITE_CALLS >= 1 }, "successful run");
+            kani::cover!(unsafe { !gfs::WRITE_FAILED.v && gfs::WRITE_CALLS.v >= 1 }, "successful run");
             core::mem::forget(cb);
         }
     };
@@ -50,3 +50,39 @@ macro_rules! flush_before_rename {
 flush_before_rename!(c10_unspent_flush_2, 2);
 //@ id=C10,C07 tier=thorough name=c10_unspent_flush_0 timeout=1500 role=flush_before_rename bound=UnspentCsvDump,0-entries(header-only)
 flush_before_rename!(c10_unspent_flush_0, 0);
+
+// C02: file name; C07 unspent_rows: row content with real formatting (one entry, symbolic small index)
+//@ id=C02,C07 tier=quick name=c07_unspent_row timeout=2400 role=unspent_rows bound=1-entry,index<10-symbolic,height/value-single-digit,start-7,last-99 mem=20 fn=UnspentCsvDump::on_complete,UnspentCsvDump::on_start
+#[kani::proof]
+#[kani::unwind(70)]
+fn c07_unspent_row() {
+    let idx: u32 = kani::any();
+    let h: u64 = kani::any();
+    let val: u64 = kani::any();
+    kani::assume(idx < 10 && h < 10 && val < 10);
+    let mut cb = mk_dump(256);
+    match cb.on_start(7) { Ok(()) => {}, Err(e) => { core::mem::forget(e); } }
+    cb.unspents.insert(key(0xab, idx), common::UnspentValue { block_height: h, value: val, address: String::from("a") });
+    match cb.on_complete(99) { Ok(()) => {}, Err(e) => { core::mem::forget(e); assert!(false, "C07:completion_ok"); return; } }
+    // txid bytes [ab, 00 x31] are displayed reversed: 62 zeros then "ab"
+    let mut want = [0u8; 160];
+    let head = b"txid;indexOut;height;value;address\n";
+    let mut n = 0;
+    while n < head.len() { want[n] = head[n]; n += 1; }
+    let mut i = 0;
+    while i < 62 { want[n] = b'0'; n += 1; i += 1; }
+    want[n] = b'a'; want[n + 1] = b'b'; n += 2;
+    want[n] = b';'; want[n + 1] = b'0' + idx as u8; want[n + 2] = b';'; want[n + 3] = b'0' + h as u8; want[n + 4] = b';'; want[n + 5] = b'0' + val as u8;
+    want[n + 6] = b';'; want[n + 7] = b'a'; want[n + 8] = b'\n'; n += 9;
+    unsafe {
+        assert!(gfs::ACCEPTED.v[3] == n, "C07:header_plus_one_row_per_entry");
+        let mut i = 0;
+        while i < n && i < gfs::LOGCAP { assert!(gfs::WLOG.v[3][i] == want[i], "C07:row_carries_txid_index_height_value_address"); i += 1; }
+        let wn = b"d/unspent-7-99.csv";
+        assert!(gfs::RENAMES.v == 1 && gfs::RENAME_TO_LEN.v[0] == wn.len(), "C02:file_name_carries_start_and_last_height");
+        let mut i = 0;
+        while i < wn.len() { assert!(gfs::RENAME_TO.v[0][i] == wn[i], "C02:file_name_carries_start_and_last_height"); i += 1; }
+    }
+    kani::cover!(idx == 9 && h == 0, "digits");
+    core::mem::forget(cb);
+}
